@@ -1068,7 +1068,8 @@ def log_keywords_pass(ctx: Ctx, rep: Report, rid: str = "R01.18") -> None:
     n = 0
     for lp in [x for x in cfg.live if x.kind == "for" and isinstance(x.ast.target, ast.Name)]:
         var = lp.ast.target.id
-        for c in [x for x in cfg.live if x.kind == "cond" and x.ast is not None and any(isinstance(y, ast.Name) and y.id == var for y in ast.walk(x.ast))]:
+        inside = {id(y) for b_ in lp.ast.body for y in ast.walk(b_)}
+        for c in [x for x in cfg.live if x.kind == "cond" and x.ast is not None and id(x.ast) in inside and any(isinstance(y, ast.Name) and y.id == var for y in ast.walk(x.ast))]:
             raising = {lab for lab in ("T", "F") for s_ in c.succs(lab) if s_.kind == "stmt" and isinstance(s_.ast, ast.Raise)}
             if not raising:
                 continue
